@@ -118,6 +118,8 @@ pub struct HandlerRunner {
     /// claimed source id (index) of the datagram being delivered in this step, if any
     cur_src: Option<u64>,
     wire_dst_hint: Option<SocketAddr>,
+    /// the step delivers a WHOAREYOU from an address other than the one the echoed request went to
+    cur_wru_foreign: bool,
     /// whether the datagram being delivered carries a ciphertext that verifies under a known key
     cur_authentic: bool,
     ttl_ms: u64,
@@ -154,6 +156,7 @@ impl Default for HandlerRunner {
             delivering_handshake: false,
             cur_src: None,
             wire_dst_hint: None,
+            cur_wru_foreign: false,
             cur_authentic: true,
             ttl_ms: 86_400_000,
             old_keys_mark: 0,
@@ -646,6 +649,9 @@ impl HandlerRunner {
             let k = self.wire.len();
             // describe as the intended recipient decodes it (names are drawn here, in emission order)
             let term = self.describe(&bytes, dst_idx, idx, true).unwrap_or_else(|| "?".into());
+            if self.cur_wru_foreign && term.starts_with("H~") {
+                out.push(format!("!MON C03 whoareyou-from-foreign-address-acted-on node={}", idx));
+            }
             self.wire_dst_hint = Some(dst);
             self.mon_emitted(idx, dst_idx, &bytes, out);
             let a = self.addr_idx(dst);
@@ -975,6 +981,7 @@ impl HandlerRunner {
             self.delivering_handshake = false;
             self.cur_src = None;
             self.cur_authentic = true;
+            self.cur_wru_foreign = false;
         }
         match t {
             // application of node X sends a request to node Y
@@ -1101,6 +1108,20 @@ impl HandlerRunner {
                 let term = self.describe(&d.bytes, tidx, d.from_idx, false);
                 self.delivering_handshake = term.as_ref().map(|t| t.starts_with("H~")).unwrap_or(false);
                 self.cur_authentic = term.as_ref().map(|t| t.contains("E[")).unwrap_or(false);
+                self.cur_wru_foreign = false;
+                if let Some(tm) = &term {
+                    if tm.starts_with("W~") {
+                        // where did the request with the echoed nonce go?
+                        if let Ok((p, _)) = packet_decode(&self.nodes[ti].enr.node_id(), ProtocolIdentity::default(), &d.bytes) {
+                            let went_to: Vec<SocketAddr> = self.wire.iter().filter(|w| w.from_idx == tidx).filter(|w| {
+                                packet_decode(&w.dst_id, ProtocolIdentity::default(), &w.bytes).map(|(q, _)| q.nonce == p.nonce && !matches!(q.kind, PacketKind::WhoAreYou { .. })).unwrap_or(false)
+                            }).map(|w| w.dst).collect();
+                            if !went_to.is_empty() && !went_to.contains(&src) {
+                                self.cur_wru_foreign = true;
+                            }
+                        }
+                    }
+                }
                 if self.delivering_handshake {
                     let claimed: u64 = term.as_ref().and_then(|t| t.split('~').nth(1).and_then(|x| x.parse().ok())).unwrap_or(0);
                     let now = self.now_ms;
